@@ -26,7 +26,7 @@ Produce {n} independent changes (each one a separate small patch against the cle
    (153 tests; `python -m pytest` run from the worktree imports the worktree's lena, not the installed one).
 2. the change BREAKS the property above (some part of its statement becomes false for some input / sequence of operations).
 3. the breakage needs something specific to manifest: an unusual input, a multi-step sequence of operations, a particular configuration/bufsize/index combination, a boundary value, or two cooperating sites that each look fine alone. It must NOT be something ordinary use or the simplest example would expose at once. It should look like a plausible mistake or "optimisation" a maintainer could make (off-by-one, wrong comparison, forgotten copy, dropped case, wrong order, missing reset, early return, swallowed exception...), not an obviously malicious edit, and should be a few lines.
-4. you provide a demonstration: a small standalone Python program demo.py that takes no arguments, imports lena (it will be run as `PYTHONPATH=<tree> /venv/bin/python demo.py`), and exits 0 when the property holds for its scenario (clean tree) and exits 1 (printing what went wrong) with your change applied. Verify both: run it with PYTHONPATH={wt} with the change applied (must exit 1) and after `git stash`/`git checkout -- .` (must exit 0).
+4. you provide a demonstration: a small standalone Python program demo.py that takes no arguments, imports lena (it will be run as `PYTHONPATH=<tree> /venv/bin/python demo.py`), and exits 0 when the property holds for its scenario (clean tree) and exits 1 (printing what went wrong) with your change applied. Verify both: run it with PYTHONPATH={wt} with the change applied (must exit 1) and after `git checkout -- .` (must exit 0). Do NOT use `git stash` (the stash is shared with other worktrees of the same repository): save your change with `git diff > file`, restore with `git checkout -- .`, re-apply with `git apply file`.
 
 For change number k (1..{n}) write these files:
   /tmp/seeded-out/{pid}-k/patch.diff   (output of `git -C {wt} diff` with only that change applied; it must apply with `git apply` to a clean checkout)
